@@ -557,6 +557,14 @@ fn main() {
             inputs.push(Input { custom: None, cap, nc, total: t, buffer, fee, oracle: o });
         }
     }
+    // answers whose fees overflow u64 (regression of the unchecked `n as u64 * fee`): never a panic,
+    // such an answer simply does not fit
+    for (kind, k) in [(0u8, 1usize), (1, 100), (2, 1), (3, 2)] {
+        for nc in [1usize, 2] {
+            inputs.push(Input { custom: None, cap: 5, nc, total: 100_095_000, buffer: 15_000, fee: 80_000, oracle: Oracle::Huge(kind, k) });
+            inputs.push(Input { custom: None, cap: 64, nc, total: MAX_MONEY, buffer: 15_000, fee: 1, oracle: Oracle::Huge(kind, k) });
+        }
+    }
     // other large parameters through the public constructor: a non-canonical maximum, another floor
     for &(min_exp, max_denom) in &[(3u32, 7_000_000_000u64), (8, 100_000_000_000_000), (0, 999)] {
         let ds = denoms(min_exp, max_denom);
